@@ -68,7 +68,11 @@ ObsRows == SelectSeq(rows, LAMBDA r : r.obs = Chosen)
 TraceIds == FirstOccIds(ObsRows, <<>>)
 TraceOf(i) == LET rs == SelectSeq(ObsRows, LAMBDA r : r.id = i) IN [k \in DOMAIN rs |-> <<rs[k].t, rs[k].v>>]
 DoseTraceOf(i) == LET rs == SelectSeq(rows, LAMBDA r : r.id = i /\ r.dose > 0) IN [k \in DOMAIN rs |-> <<rs[k].t, rs[k].dose>>]
+\* add_simulation: the frame is a simulated time series (a time and a value column, nothing else is read); the line drawn holds
+\* every row once, in the order of the frame
+SimTrace == [k \in DOMAIN rows |-> <<rows[k].t, rows[k].v>>]
 RoutingOK == (Checked /\ Mode = "routing") =>
+   /\ Len(SimTrace) = Len(rows)
    /\ FoldLeft(LAMBDA acc, i : acc + Len(TraceOf(i)), 0, TraceIds) = Len(ObsRows)       \* every row reaches one trace
    /\ \A i \in PL_Rng(TraceIds) : \A k \in DOMAIN TraceOf(i) : \E r \in PL_Rng(rows) : r.id = i /\ r.obs = Chosen /\ <<r.t, r.v>> = TraceOf(i)[k]
 
@@ -84,5 +88,5 @@ BandRec(p) == [num |-> p[1], den |-> p[2], haslower |-> HasLower(p), hasupper |-
 Emit == Checked => PrintT("@@" \o ToJson(
    IF Mode = "bands" THEN [mode |-> "bands", v |-> v, bands |-> [i \in DOMAIN Probs |-> BandRec(Probs[i])]]
    ELSE [mode |-> "routing", rows |-> rows, ids |-> TraceIds, traces |-> [k \in DOMAIN TraceIds |-> TraceOf(TraceIds[k])],
-         doses |-> [k \in DOMAIN TraceIds |-> DoseTraceOf(TraceIds[k])]]))
+         doses |-> [k \in DOMAIN TraceIds |-> DoseTraceOf(TraceIds[k])], sim |-> SimTrace]))
 =============================================================================
